@@ -104,6 +104,9 @@ func (r DIDKeyResolver) baseUrl(doc *did.Document) (baseUrl *string) {
 		if reflect.ValueOf(ctx).Kind() == reflect.Map {
 			m := ctx.(map[string]interface{})
 			if val, ok := m["@base"]; ok {
+				if _, isString := val.(string); !isString {
+					continue
+				}
 				valStr := val.(string)
 				baseUrl = &valStr
 				break
